@@ -21,18 +21,32 @@ from harness import lang_gen as G
 GEN = ['lang_tables', 'lang_schemas']
 LEAN_MODULES = ['Mistral.Props.C14', 'Mistral.Props.C14Schema']
 MANIFEST = {
-    'technique': 'Lean 4 theorems over a model of the workbook text cutter, spec-dict normalisation and the graph '
-                 'checks of workflow validation; differential check of that model against the real functions; '
-                 'time-limited totality/stability monitor over a structure-aware mutation stream on every '
-                 'parser/service/validate entry point',
+    'technique': 'Lean 4 theorems over a model of the workbook text cutter, spec-dict normalisation, the graph '
+                 'checks of workflow validation and the JSON-schema level (a total interpreter of the schema keywords '
+                 'mistral uses, run over the schemas regenerated from the real get_schema() of every spec class); '
+                 'differential check of these models against the real functions (the schema interpreter against the '
+                 'real jsonschema on every value the parsers validate); time-limited totality/stability monitor over a '
+                 'structure-aware mutation stream on every parser/service/validate entry point',
     'text': 'Theorems: cutDef (= _parse_def_from_wb) returns exactly the dedented member for every canonically '
             'rendered workbook whose section keyword first occurs at the section line and whose member name does not '
             'equal an earlier stripped line (cutDef_correct_partial; the unrestricted statement is refuted by a '
             'witness that is replayed on the real code); normalisation is idempotent; graph validation accepted '
             'implies start task exists, every transition target / requirement exists, every join has enough inbound '
-            'tasks. Totality, hang-freedom and re-read stability are decided by the monitor on the real code.',
-    'note': 'totality/hangs are monitor-only (time limit, sampled inputs); PyYAML, jsonschema, re, yaql, jinja2, '
-            'sqlite are exercised but not modelled; check_schema memoised by schema content (validated by stream seam)',
+            'tasks. Schema level (Props.C14Schema, over the generated schemas): for every spec class, a value its '
+            'schema accepts has the shape the constructor relies on without checking (tasks a non-empty dict of '
+            'non-empty string-keyed dicts, type direct/reverse, join all/one/non-negative integer, retry dict with '
+            'delay and count or one-line string, with-items / requires string or list of strings, on-clauses exactly '
+            'the forms OnClauseSpec handles, policies expression or non-negative integer / bool, only declared string '
+            'keys, name / base / version present ...: *_accept_shape, one theorem per class); a non-string key below '
+            'patternProperties is a rejection; a schema is the conjunction of its keywords, allOf / anyOf / oneOf '
+            'facts; a task named `version` is accepted but never instantiated (tasks_all_instantiated_full_fails, '
+            'replayed; _partial for every other name). Schema validation is total by construction (structural '
+            'recursion, no $ref, the TypeError of a non-string key is part of the result). Hang-freedom, the '
+            'expression / YAML / regex engines and re-read stability are decided by the monitor on the real code.',
+    'note': 'totality of the whole entry points and hangs are monitor-only (time limit, sampled inputs); PyYAML, re, '
+            'yaql, jinja2, sqlite are exercised but not modelled; jsonschema is modelled for the keyword subset that '
+            'occurs (translator refuses anything else) and tied by the streams schema / schema-re / schema-eq; '
+            'check_schema memoised by schema content (validated by stream seam)',
 }
 RULE = ('documents = bundled YAML + generated workflow lists/workbooks/action lists (direct/reverse, joins, policies, '
         'with-items, publish, on-clauses in string/list/dict/next+publish forms, task-defaults) + hand-written corner '
@@ -40,14 +54,36 @@ RULE = ('documents = bundled YAML + generated workflow lists/workbooks/action li
         'every document goes to all three parsers and, when a parser accepts, to the services. A case is non-trivial '
         'when at least one entry point got past YAML parsing and schema type-of-root checks (verdict is not the same '
         'for all three parsers) or it was accepted; distinct = distinct text. cut/norm/graph streams: non-trivial '
-        'when the item is found / a key is injected / the graph has a transition, join or requirement.')
+        'when the item is found / a key is injected / the graph has a transition, join or requirement. schema stream: '
+        'cases = (spec class, value) pairs: every call of BaseSpec.validate_schema the real parsers/services made on '
+        'those documents (recorded), every node of every parsed document against the classes of its role (raw and '
+        'with the name/version/type injections), random node x class pairs, ~220 hand-written corner values x every '
+        'class; compared: accept/reject, TypeError reached, multiset of (path, failing keyword) of all errors; '
+        'non-trivial = rejected or a dict; distinct = distinct (class, value). schema-ctor: accepted values through '
+        'the real constructor + validate_semantics. schema-re: every pattern x harvested keys/strings, alphabet '
+        'soups, non-ASCII word/space characters; non-trivial = match. schema-eq: node pairs; non-trivial = equal.')
 TRUSTED = [
     'totality ("never an internal error") and hang-freedom are NOT theorems: they are evaluated by the monitor on the '
     'sampled mutation stream; hangs are decided on CPU time of the check process (limit = max(5 s, 200 x the CPU time '
     'of validating the largest bundled definition, measured in the same process) and on CPU-time growth over size '
     'doublings for 17 input families; the wall-clock watchdog (>= 300 s) is an infrastructure guard only (exit 2); '
     'ReDoS / regex engine is not modelled',
-    'PyYAML, jsonschema, python re, yaql, jinja2, sqlalchemy+sqlite are third-party and only exercised',
+    'PyYAML, python re, yaql, jinja2, sqlalchemy+sqlite are third-party and only exercised; jsonschema is modelled '
+    '(Model/Schema.lean, written after jsonschema 4.x _keywords.py/_utils.py/_types.py for the validator class that '
+    'jsonschema.validate picks, Draft 2020-12; the translator refuses another validator class, any keyword outside '
+    'type/enum/minimum/minLength/minItems/min-/maxProperties/uniqueItems/pattern/required/properties/'
+    'patternProperties/additionalProperties/items/allOf/anyOf/oneOf/not, $ref, and any regular expression other '
+    'than the 8 known ones) and tied by correspondence, not proved equivalent; best_match / the error text are not '
+    'modelled',
+    'schema model: regular expressions are decided by a small matcher (Model/Schema.lean matchHere) over atoms '
+    'produced by python\'s own regex parser, \\w / \\s tables read from the running python: tied by stream schema-re, '
+    'nothing is proved about it; nan equals nan (PyYAML yields one nan object); uniqueItems is "no two equal elements" '
+    '(the sorted fast path of _utils.uniq differs only for lists of numbers containing nan: compared on the verdict '
+    'only); the order of the errors yielded before a TypeError by additionalProperties-with-schema follows a python '
+    'set and is not compared; YAML values of no JSON type (date, bytes, set) are opaque',
+    'harness seams of the schema stream: a recorder around BaseSpec.validate_schema and parser.parse_yaml (off during '
+    'the scaling probes); while the stream itself calls validate_schema on bare spec objects str(ValidationError) is '
+    'the bare message (the pretty-printed text costs 17 ms per rejection; first 150 rejections use the real __str__)',
     'harness seam: jsonschema check_schema is memoised by schema content (stream `seam` compares with the un-memoised run)',
     'in-memory sqlite, one non-admin auth context, default configuration (validation_mode=enabled)',
     'regular-expression dependent parts of normalisation (inline `key=value` parameters) are given to the model as '
